@@ -309,6 +309,7 @@ enum HKind {
     Panic,
     IntSub,
     Reenter(Action),
+    WaitFlag(String, u64),
 }
 
 #[derive(Clone)]
@@ -350,6 +351,7 @@ struct Want {
 
 #[derive(Clone)]
 enum Step {
+    SetFlag { flag: String },
     InvalidUtf8,
     Parse { src: String, want: Want },
     Tokenize { src: String },
@@ -494,6 +496,13 @@ fn parse_handler(j: &J) -> Result<HSpec, E> {
         "err" => HKind::Err,
         "panic" => HKind::Panic,
         "int_sub" => HKind::IntSub,
+        "wait_flag" => {
+            let ms = match jget(j, "ms") {
+                None => 2000,
+                Some(v) => as_i64(v, "ms")?,
+            };
+            HKind::WaitFlag(req_str(j, "flag")?.to_string(), ms.max(0) as u64)
+        }
         "reenter" => {
             let a = req_str(j, "action")?;
             HKind::Reenter(match a {
@@ -699,6 +708,7 @@ fn parse_step(j: &J) -> Result<Step, E> {
             Step::Accessor { which, value: parse_value(req(j, "value")?)? }
         }
         "reset_counter" => Step::ResetCounter,
+        "set_flag" => Step::SetFlag { flag: req_str(j, "flag")?.to_string() },
         "threads" => {
             let lists = match req(j, "threads")? {
                 J::Arr(a) => {
@@ -935,8 +945,45 @@ fn make_handler(spec: &HSpec) -> HFn {
                 reenter(action, &spec.id);
                 Ok(Value::from(7))
             }
+            HKind::WaitFlag(flag, ms) => {
+                // wait until another thread sets the flag; a timeout is reported in the value
+                if wait_flag(flag, *ms) {
+                    Ok(Value::from(7))
+                } else {
+                    Ok(Value::from("timeout"))
+                }
+            }
         }
     })
+}
+
+// ───────────────────────────── flags (cross-thread waiting) ─────────────────────────────
+
+static FLAGS: Mutex<Vec<String>> = Mutex::new(Vec::new());
+static FLAGS_CV: std::sync::Condvar = std::sync::Condvar::new();
+
+fn set_flag(name: &str) {
+    let mut g = FLAGS.lock().unwrap_or_else(|e| e.into_inner());
+    if !g.iter().any(|f| f == name) {
+        g.push(name.to_string());
+    }
+    FLAGS_CV.notify_all();
+}
+
+fn wait_flag(name: &str, ms: u64) -> bool {
+    let deadline = std::time::Instant::now() + Duration::from_millis(ms);
+    let mut g = FLAGS.lock().unwrap_or_else(|e| e.into_inner());
+    loop {
+        if g.iter().any(|f| f == name) {
+            return true;
+        }
+        let now = std::time::Instant::now();
+        if now >= deadline {
+            return false;
+        }
+        let (ng, _) = FLAGS_CV.wait_timeout(g, deadline - now).unwrap_or_else(|e| e.into_inner());
+        g = ng;
+    }
 }
 
 // ───────────────────────────── steps ─────────────────────────────
@@ -1248,6 +1295,10 @@ fn run_step(step: &Step, in_threads: bool) -> String {
         }
         Step::ValueFrom(vf) => step_value_from(vf),
         Step::Accessor { which, value } => step_accessor(which, value),
+        Step::SetFlag { flag } => {
+            set_flag(flag);
+            OK.to_string()
+        }
         Step::ResetCounter => {
             COUNTER.store(0, Ordering::SeqCst);
             lock_any(&CALL_LOG).clear();
